@@ -5,7 +5,7 @@ from vklib import Builder
 QUICK_EXP = [-3, -1, 0, 1, 5, 15, 16, 20, 31, 32, 33, 52, 53, 62]
 FRAC_QUICK = [52, 50, 48]        # 0, 2, 4 fractional mantissa bits: CBMC time grows ~2.3x per 4 fractional bits (e=40: 207 s, e=32: 908 s)
 FRAC_THOROUGH = [46, 44, 40] + ([int(x) for x in os.environ["VK_FRAC"].split(",")] if os.environ.get("VK_FRAC") else [])
-KNOWN_BAD_EXP = [63, 64]          # finding C19-F1: f64_int_bits for x >= 2^63
+KNOWN_BAD_EXP = []                # (C19-F1 was repaired: |x| >= 2^63 is scaled into the i64 range before f64_int_bits, see vk_c19_mkd_scale_*)
 
 
 def spec(tier, seed):
@@ -102,6 +102,29 @@ def spec(tier, seed):
           bounds="every bit pattern of a normal double (exponent field 1..2046, all 2^52 mantissas, both signs) and +-0; "
                  "unwind 66 (checked); subnormals, inf, NaN outside",
           functions=["rusty_variant::bytes_to_f64", "rusty_variant::bits::lsb_bytes_to_msb_bits"])
+
+    # |x| >= 2^63: f64_scale_to_i64_range halves the value exactly until it is below 2^63 (then f64_int_bits applies, e <= 62) and
+    # reports how many zero bits were dropped; |x| < 2^63 is left alone
+    def scale_instance(e, t, core=True):
+        b.add(bits, "vk_c19_mkd_scale_e%d" % e, """
+        let m: u64 = kani::any();
+        kani::assume(m < (1u64 << 52));
+        let x = f64::from_bits(((%(e)d + 1023) as u64) << 52 | m);     // 1.m * 2^e
+        let (y, k) = f64_scale_to_i64_range(x);
+        let want_k: usize = if %(e)d >= 63 { %(e)d - 62 } else { 0 };
+        assert!(k == want_k);
+        // the same mantissa, exponent 62 (or untouched): nothing is lost, the integer part now fits in an i64
+        let want_y = if %(e)d >= 63 { f64::from_bits(((62 + 1023) as u64) << 52 | m) } else { x };
+        assert!(y == want_y);
+        assert!(y < 9223372036854775808.0);
+        """ % {"e": e}, unwind=max(e - 62, 0) + 3, tier=t, core=core, cost=20 + max(e - 62, 0) * 5,
+              bounds="x = 1.m * 2^%d, all 2^52 mantissas; unwind %d (checked)" % (e, max(e - 62, 0) + 3),
+              functions=["rusty_variant::bits::f64_scale_to_i64_range"], basic="PRINT CVD(MKD$(1.6D+23))   ' via X# = 1600000.5: X# = X# * X# * X# * 40000")
+    for e in (5, 62, 63, 64, 70, 100):
+        scale_instance(e, "quick")
+    for e in list(range(65, 129, 7)) + [200, 512, 1023]:
+        if e not in (70, 100):
+            scale_instance(e, "thorough", core=e <= 128)
 
     # twin of the open finding C19-F2: subnormal bit patterns (exponent field 0, mantissa != 0)
     b.add(bits, "vk_c19_cvd_subnormal", """
@@ -243,7 +266,7 @@ def spec(tier, seed):
         tier,
         bounds="integers: none (all 2^16 values / 2^32 pairs, unwind 18 checked). decoder: all normal doubles and +-0. "
                "encoder parts: one instance per binary exponent e with sign and all 52 mantissa bits symbolic; quick e in %s, "
-               "thorough every e in -16..62 plus seed-rotated negative exponents and -1022" % QUICK_EXP,
+               "thorough every e in -16..62 plus seed-rotated negative exponents and -1022; the scaling of |x| >= 2^63 into the i64 range for e = 63, 64, 70, 100 (quick) / 63..128, 200, 512, 1023 (thorough)" % QUICK_EXP,
         outside="assembly of the encoder parts in f64_to_bits_for_normalized_value and hence CVD(MKD$(x)) = x end to end; "
                 "subnormals, inf, NaN in the decoder; MKD$/CVD string packing (string_utils)",
         stubs=["f64::powi(2.0, k) -> exact power of two built from the bit pattern (Kani over-approximates powi); used only by vk_c19_cvd_normal"],
